@@ -1,28 +1,34 @@
 """./check configuration for C14 (see verif_props.py)."""
 
-PROP = {'technique': 'Lean arithmetic proof of Duration.String against a model of time.Duration.String, host:port round trip on models of net.Join/SplitHostPort, URL round trips under pointwise contracts; differential tie',
+PROP = {'technique': 'Lean arithmetic proof of Duration.String against a model of time.Duration.String, statement-by-statement model of time.ParseDuration (float64 as exactly rounded rationals) with the contract DUR-RT proved for it by decimal print/parse inverse lemmas, host:port round trip on models of net.Join/SplitHostPort, URL round trips under pointwise contracts; differential tie',
  'module': 'GolibsVerif.Theorems.C14',
+ 'modules': ['GolibsVerif.Theorems.C14', 'GolibsVerif.Theorems.C14Parse'],
  'namespace': 'GolibsVerif.C14',
  'rule': "cases: all boundary durations (0, +-1ns, +-(1s-1ns), multiples of s/m/h, +-2^63 edges) and random int64; hosts with ':', '%', "
          'empty, brackets, arbitrary bytes x uint16 ports; host:port texts (malformed stream); prefix/address texts; URLs from a grammar '
          'forcing JSON-escapable material (& < > " \\ non-ASCII U+2028 ...) into every component; raw UnmarshalJSON tokens; plus C14.std.* '
-         'ops comparing the Lean models of time.Duration.String, strconv.FormatUint/ParseUint(.,10,16), net.JoinHostPort, '
-         'net.SplitHostPort with the real functions.  Non-trivial = the encoded text differs from the naive rendering (0s/0m0s cut, '
+         'ops comparing the Lean models of time.Duration.String, time.ParseDuration (texts of both String methods on every boundary '
+         'duration, a malformed/overflow stream around every overflow test incl. the uint64 wrap of d += v, fractions of up to 700 digits, '
+         'random grammar texts), strconv.FormatUint/ParseUint(.,10,16), net.JoinHostPort, net.SplitHostPort with the real functions.  Non-trivial = the encoded text differs from the naive rendering (0s/0m0s cut, '
          "brackets added or trimmed, JSON escape present, invalid UTF-8, CIDR/bare address accepted); classes prefixed 'trivial' (uncut "
          'durations, plain hosts, rejected texts, std.* model-validation ops) are not counted; distinct = distinct case line',
  'trusted': ['Lean models of stdlib functions, validated against the real ones by the C14.std.* ops on every run (sampled): '
-             'time.Duration.String (format/fmtFrac/fmtInt), strconv.FormatUint(.,10), strconv.ParseUint(.,10,16), net.JoinHostPort, '
+             'time.Duration.String (format/fmtFrac/fmtInt), time.ParseDuration (leadingInt/leadingFraction/unitMap and its float64 '
+             'expression, modelled as exact rationals rounded to 53 bits ties-to-even with unbounded exponent - see Model/C14Parse.lean for '
+             'why the exponent range cannot matter), strconv.FormatUint(.,10), strconv.ParseUint(.,10,16), net.JoinHostPort, '
              'net.SplitHostPort, strings.Trim(.,"[]"), bytes.Contains(.,"/"), netip.PrefixFrom(a,a.BitLen())',
-             'contract DUR-RT (time.ParseDuration inverts time.Duration.String on int64; a text that parses with a zero unit appended '
-             'after a complete ...m / ...h group parses to the same value without it) - assumed by duration_roundtrip, sampled on every '
-             'duration case (key contract-DUR-RT); no Lean instance of the contract is constructed',
+             'contract DUR-RT is NOT assumed any more: parse_stdString / parse_golibs_string prove it for the Lean model of '
+             'time.ParseDuration for all 2^64 durations; what is trusted instead is that model (op C14.std.parsedur, and every C14.dur case, '
+             'whose Lean side now runs UnmarshalText on the model and cross-checks the real answer carried on the case line); the direct '
+             'oracle still samples the contract on the real function (key contract-DUR-RT)',
              'contract URL-ID *at the URL in question* (url.Parse(u.String()) succeeds and re-renders to the same text) - hypothesis of '
              'url_text_roundtrip/url_json_roundtrip, shown necessary by url_text_roundtrip_iff; sampled on every URL case; it is FALSE for '
              'some URLs of go1.24.2\'s net/url (e.g. "/%2f^"), reported as KNOWN-FINDING C14-stdlib-url-not-reparseable',
              'contract JSON-RT at u.String() (encoding/json renders the text as a quoted token and decodes it back) - hypothesis of '
              'url_json_roundtrip; true for valid UTF-8 (sampled), false for invalid UTF-8, which JSON cannot carry (such URLs are excluded '
              'from the JSON clause of the oracle and labelled url:invalid-utf8)',
-             'netip.ParsePrefix / netip.ParseAddr / url.Parse / URL.String / json encoding are parameters of the model; their answers '
+             'netip.ParsePrefix / netip.ParseAddr / url.Parse / URL.String / json encoding are parameters of the model (time.ParseDuration no '
+             'longer is); their answers '
              'travel on the case line as oracle fields computed from the standard library only',
              'U16-RT is NOT assumed: u16_roundtrip proves it on the Lean models of FormatUint/ParseUint'],
  'level_text': 'Lean theorems for all int64 durations, all host byte strings without square brackets and all uint16 ports, all prefix '
@@ -31,10 +37,14 @@ PROP = {'technique': 'Lean arithmetic proof of Duration.String against a model o
                'netutil.Prefix.UnmarshalText and urlutil.Parse/URL.MarshalText/UnmarshalText/UnmarshalJSON; the models (and the Lean '
                'models of the stdlib functions they sit on) are tied to the Go code by running both on the same generated cases on every '
                'check',
- 'level_note': 'full strength, no stdlib contract: duration_string_spec, duration_slice_safe, duration_no_wrap, u16_roundtrip, '
+ 'level_note': 'full strength, no stdlib contract: duration_string_spec, duration_slice_safe, duration_no_wrap, duration_roundtrip, '
+               'parse_stdString, parse_golibs_string, parse_stripRedundant, parse_drop_zero_seconds, parse_drop_zero_minutes, dur_rt_model (DUR-RT '
+               'proved verbatim - round trip on all int64, drop clauses on ALL texts - for the Lean model of time.ParseDuration, which is '
+               'tied to the real function by C14.std.parsedur; parse_loop_fuel_suffices / parse_group_consumes: the model\'s loop fuel never '
+               'runs out; parse_wrap_quirk records go1.24\'s unnoticed uint64 wrap of d += v), u16_roundtrip, '
                'net_split_join, hostport_roundtrip (on Lean models of time.Duration.String, strconv, net.Join/SplitHostPort that are '
                'sampled against the real functions), prefix_unmarshal_spec, prefix_bare_single_address (netip parsers as parameters). '
-               'Under named contracts: duration_roundtrip [DUR-RT], url_text_roundtrip [URL-ID at u] (+ url_text_roundtrip_iff: the '
+               'Under named contracts: duration_roundtrip_of_contract [DUR-RT, for any parser; superseded by duration_roundtrip], url_text_roundtrip [URL-ID at u] (+ url_text_roundtrip_iff: the '
                'contract is necessary), url_json_roundtrip [URL-ID at u, JSON-RT at u.String()]. URL-ID is false for some URLs in go1.24.2 '
                'net/url (KNOWN-FINDING); JSON-RT excludes invalid UTF-8. url_json_unfixed_corrupts / url_json_unfixed_panics record the '
                'pre-fix UnmarshalJSON. Trusted: Lean kernel; hand-written models (differential tie, sampled)',
